@@ -102,6 +102,18 @@ def run_model(exe, text, timeout=1800):
     return p.stdout.decode().split("\n"), ""
 
 
+def monitors_only(impl_text):
+    """for monitors-only probes: statistics, monitor failures and raw histories; the model is not run"""
+    lines = [l for l in impl_text.split("\n") if l]
+    mons = [l for l in lines if l.startswith("mon|")]
+    stats = {}
+    for l in lines:
+        if l.startswith("stat|"):
+            f = l.split("|")
+            stats[f[1] + ":" + f[2]] = int(f[3])
+    return stats, [], mons, split_raw([l for l in lines if not l.startswith("stat|")]), ""
+
+
 def compare(impl_text, model_exe):
     """returns (stats, diffs, monitor_failures, histories). diffs: list of (history_index, line_no, impl, model)"""
     lines = [l for l in impl_text.split("\n") if l]
